@@ -313,3 +313,17 @@ def mnv3_cases(refname, tx, cfg, lo, hi, w=9):
                         trip = tuple(sorted((a, b, c), key=lambda v: (v.start, v.end, v.alt)))
                         out.append(Case(refname, small=trip, cfg=cfg))
     return out
+
+
+def small_alphabet_gene(ref: refgen.Ref, tx, gp, dels=(1, 3)):
+    """Elementary small variants anchored at GENE position gp (may be intronic: used for variants nested in the donor
+    segment of an alt-splicing insertion / substitution): 3 SNVs, insertion of A, deletions of the given lengths."""
+    g = ref.gene_of[tx]['gene_id']
+    gs = ref.gene_seq(g)
+    b = gs[gp]
+    out = [CV.Var(g, tx, gp, gp + 1, b, alt) for alt in 'ACGT' if alt != b]
+    out.append(CV.Var(g, tx, gp, gp + 1, b, b + 'A'))
+    for dl in dels:
+        if gp + 1 + dl <= len(gs):
+            out.append(CV.Var(g, tx, gp, gp + 1 + dl, gs[gp:gp + 1 + dl], b))
+    return out
